@@ -19,8 +19,8 @@ PID = "C01"
 LEVEL = "proof"
 LEAN = ["SaVerif.Props.C01"]
 META = {
-    "text": "Lean, three layers. (1) Backend: a backend groups the emitted token sequence with an operator-precedence parser over its binding-power table; proved for EVERY token tree and EVERY grammar: wb g t -> parse g (print t) = t, re-association of associative chains changes neither the text nor the value (print_norm, evalG_norm), and a compositional sufficient condition ok g t -> wb g (norm t) (each node only checks that its operands bind tighter than its own binding powers). (2) SQLAlchemy: construction (self_group / is_precedent / associative flattening / and_-or_ folding / negation rewriting / AsBoolean / _between_impl) and rendering (visit_* + sqlite/postgresql/mysql overrides) are transcribed; the operator tables are REGENERATED from the working tree. End-to-end theorems api_tree_value_bool / api_tree_value_num (for every API-call tree of the fragment, every row, the three-valued value the backend computes from the emitted text IS the meaning of the tree — grouping, flattening, single-clause collapse and negation rewriting included; build_bool_eval, negate_eval, boolConstruct_eval, constructForOp_eval) and api_tree_read_back / render_meaning_preserved: for EVERY API-call tree (NumU/BoolU, any size and nesting) the element `build` constructs is in the core fragment and well grouped (build_num, build_bool: induction through _binary_operate, _boolean_compare, _construct_for_op flattening, and_/or_ _construct, _negate), and (core_render_read_back) every well-grouped element (any size/depth) over + - * % unary-minus = != < <= > >= IS IS-NOT AND OR NOT, parentheses and the bracket constructs (scalar subquery, function call, CAST, searched / simple CASE: separator chains `,` AS WHEN THEN ELSE inside brackets) renders to text that SQLite / PostgreSQL / MySQL read back as the same tree, hence (core_render_meaning_preserved) evaluates to the value of the fully parenthesised text under every interpretation with associative + * AND OR; the hypothesis coreCompat (higher regenerated precedence number => binds tighter in the grammar on both sides, naturally self-precedent operators are left-associative chains) is decided by the kernel per grammar; the constructors are proved to establish well-groupedness. For ALL operator pairs (incl. concat, LIKE family, IS DISTINCT, truediv/floordiv forms) the same is decided pairwise per dialect. (3) Semantic rewrites over three-valued logic, all operands: every pair of the regenerated negation table is a true negation except is_/is_not with themselves; every operator of the regenerated _associative set is associative. Ties checked on every run: model text == real compiler text on sqlite/postgresql/mysql/mariadb/default (type affinity included; on a textual difference both texts are re-read by the model grammar), real SQLite groups tokens exactly as the model's sqlite table (also with parentheses dropped at random), and the property itself is tested by executing the real statement on SQLite against an independent fully parenthesised reference over a table with NULLs, negatives, empty strings.",
-    "note": "Known findings (partial theorems + counterexamples in Lean, exact per-tree classification by neutralising the one defective decision): sqlite-concat-parent-arith-child (F1), negate-is-general-operand, between-bound-ungrouped, asbool-operand-ungrouped. The general theorem covers the core fragment incl. subquery / CAST / coalesce / CASE (value of a CAST and of a non-coalesce function abstract: class Abs); concat / LIKE / BETWEEN / IN / division / IS DISTINCT are covered pairwise (depth 2) by kernel decision plus the per-tree runtime verdict (wb, reading == tree) on every generated tree. PostgreSQL/MySQL grammar tables are from documentation and NOT validated (no server); only SQLite executes. Scalar subqueries and literals are atoms; floating point + and * are treated as associative. Trusted: Lean kernel, harness, backend lexers/bracket matching (the model starts from tokens), SQLite's evaluation of fully parenthesised text.",
+    "text": "Lean, three layers. (1) Backend: a backend groups the emitted token sequence with an operator-precedence parser over its binding-power table; proved for EVERY token tree and EVERY grammar: wb g t -> parse g (print t) = t, re-association of associative chains changes neither the text nor the value (print_norm, evalG_norm), and a compositional sufficient condition ok g t -> wb g (norm t) (each node only checks that its operands bind tighter than its own binding powers). (2) SQLAlchemy: construction (self_group / is_precedent / associative flattening / and_-or_ folding / negation rewriting / AsBoolean / _between_impl) and rendering (visit_* + sqlite/postgresql/mysql overrides) are transcribed; the operator tables are REGENERATED from the working tree. End-to-end theorems api_tree_value_bool / api_tree_value_num (for every API-call tree of the fragment, every row, the three-valued value the backend computes from the emitted text IS the meaning of the tree — grouping, flattening, single-clause collapse and negation rewriting included; build_bool_eval, negate_eval, boolConstruct_eval, constructForOp_eval) and api_tree_read_back / render_meaning_preserved: for EVERY API-call tree (NumU/BoolU, any size and nesting) the element `build` constructs is in the core fragment and well grouped (build_num, build_bool: induction through _binary_operate, _boolean_compare, _construct_for_op flattening, and_/or_ _construct, _negate), and (core_render_read_back) every well-grouped element (any size/depth) over + - * % / (truediv: sqlite `l / (r + 0.0)`, postgresql `l / CAST(r AS NUMERIC)`, mysql `l / r`) // (plain `/` for Integer operands where `/` is integer division, else FLOOR(l / r)) unary-minus = != < <= > >= IS IS-NOT AND OR NOT, parentheses and string concatenation (`a || b` chains, MySQL `concat(…)`; on SQLite PARTIAL: the F1 cells — an arithmetic operator exposed under `||` — are excluded by the hypothesis ConcatSafe / CSH, PostgreSQL and MySQL unconditional) and the bracket constructs (scalar subquery, function call, CAST, searched / simple CASE: separator chains `,` AS WHEN THEN ELSE inside brackets) renders to text that SQLite / PostgreSQL / MySQL read back as the same tree, hence (core_render_meaning_preserved) evaluates to the value of the fully parenthesised text under every interpretation with associative + * AND OR; the hypothesis coreCompat (higher regenerated precedence number => binds tighter in the grammar on both sides, naturally self-precedent operators are left-associative chains) is decided by the kernel per grammar; the constructors are proved to establish well-groupedness. For ALL operator pairs (incl. concat, LIKE family, IS DISTINCT, truediv/floordiv forms) the same is decided pairwise per dialect. (3) Semantic rewrites over three-valued logic, all operands: every pair of the regenerated negation table is a true negation except is_/is_not with themselves; every operator of the regenerated _associative set is associative. Ties checked on every run: model text == real compiler text on sqlite/postgresql/mysql/mariadb/default (type affinity included; on a textual difference both texts are re-read by the model grammar), real SQLite groups tokens exactly as the model's sqlite table (also with parentheses dropped at random), and the property itself is tested by executing the real statement on SQLite against an independent fully parenthesised reference over a table with NULLs, negatives, empty strings.",
+    "note": "Known findings (partial theorems + counterexamples in Lean, exact per-tree classification by neutralising the one defective decision): sqlite-concat-parent-arith-child (F1), negate-is-general-operand, between-bound-ungrouped, asbool-operand-ungrouped. The general theorem covers the core fragment incl. subquery / CAST / coalesce / CASE (value of a CAST and of a non-coalesce function abstract: class Abs); the backend's `/` itself is abstract in the value theorems (Val has no non-integer numbers); LIKE / BETWEEN / IN / IS DISTINCT are covered pairwise (depth 2) by kernel decision plus the per-tree runtime verdict (wb, reading == tree) on every generated tree. PostgreSQL/MySQL grammar tables are from documentation and NOT validated (no server); only SQLite executes. Scalar subqueries and literals are atoms; floating point + and * are treated as associative. Trusted: Lean kernel, harness, backend lexers/bracket matching (the model starts from tokens), SQLite's evaluation of fully parenthesised text.",
     "technique": "Lean 4: verified precedence-climbing parser round-trip by structural induction + decide over regenerated operator tables + transcribed constructors; differential correspondence of rendering on 5 dialects; execution oracle on SQLite",
     "design_ref": "DESIGN.md §3 C01, §2 F1",
 }
@@ -279,12 +279,15 @@ def trees(ctx, deep):
     maxd = 6 if big else 5
     # trees of the fragment of the ∀-theorems (api_tree_read_back / api_tree_value_*), deeper than
     # the general generator goes: they get the oracle, every correspondence and `fragment-verdict`
-    for _ in range(3000 if big else 150):
+    for _ in range(3000 if big else 300):
         while True:
-            if ctx.rng.random() < 0.5:
+            x = ctx.rng.random()
+            if x < 0.45:
                 u = L.frag_bool(ctx.rng, ctx.rng.randint(1, 4))
-            else:
+            elif x < 0.85:
                 u = L.frag_num(ctx.rng, ctx.rng.randint(1, 5))
+            else:
+                u = L.frag_str(ctx.rng, ctx.rng.randint(1, 4))
             # (SQLite's parser stack is finite: the fully parenthesised reference text of a tree
             #  with hundreds of nested CASEs is rejected with "parser stack overflow")
             if len(L.ops_of(u)) <= 120:
@@ -427,7 +430,11 @@ def run(ctx, deep=False):
                 ctx.count("model-verdict/core-fragment")
                 if flags[1] != "1":
                     bad_wg.append(c)
-                if flags[1] == "1" and not (flags[2] == "1" and wbv and p[0] == "ok" and p[2] == "1"):
+                if flags[3] != "1":
+                    # an F1 cell (arithmetic exposed under || on a grammar where || binds tighter):
+                    # excluded from the theorem by its hypothesis CSH, reported by the oracle
+                    ctx.count("model-verdict/core-fragment-F1-cell(excluded by CSH)")
+                elif flags[1] == "1" and not (flags[2] == "1" and wbv and p[0] == "ok" and p[2] == "1"):
                     bad_thm.append(c)
         ctx.obligation("model: every core element built by the constructors is well grouped (WG)", not bad_wg, json.dumps(bad_wg[:2]))
         ctx.obligation("model: core + WG elements are ok / read back (executable instance of core_render_read_back)", not bad_thm, json.dumps(bad_thm[:2]))
@@ -436,32 +443,46 @@ def run(ctx, deep=False):
         fbad = []
         for c, o in zip(fcases, fout):
             p = o.split(" ")
-            ctx.count("fragment-verdict=%s" % ("read-back" if (p[0] == "ok" and p[1:] == ["1", "1", "111"]) else "FAIL"))
-            if not (p[0] == "ok" and p[1:] == ["1", "1", "111"]):
+            flags = p[-1]
+            if len(flags) == 4 and flags[:2] == "11" and flags[3] == "0":
+                # Core + WG but not CSH: an F1 cell; the theorem does not speak about it
+                ctx.count("fragment-verdict=F1-cell(excluded by CSH)")
+                continue
+            good = p[0] == "ok" and p[1:] == ["1", "1", "1111"]
+            ctx.count("fragment-verdict=%s" % ("read-back" if good else "FAIL"))
+            if not good:
                 fbad.append({"case": c, "model": o})
         ctx.obligation("model: every fragment tree (NumU/BoolU) builds a Core + WG element that is ok and read back "
                        "(executable instance of api_tree_read_back)", not fbad, json.dumps(fbad[:2]))
     # ---- the Lean semantics (evalNumU / evalBoolU, the meaning used by api_tree_value_*) against
     # the real SQLite, on trees of the theorem's fragment, every row of the table
     if ctx.driver_ok():
-        nfrag = 1500 if (ctx.tier == "thorough" or deep) else 250
+        nfrag = 1500 if (ctx.tier == "thorough" or deep) else 400
         ecases, ereqs, eimpl = [], [], []
-        rows3 = [(r[1], r[2], r[3]) for r in orc.db.rows]
+        rows3 = [(r[1], r[2], r[3], r[6], r[7]) for r in orc.db.rows]
         for _ in range(nfrag):
-            u = L.frag_bool(ctx.rng, ctx.rng.randint(1, 3)) if ctx.rng.random() < 0.6 else L.frag_num(ctx.rng, ctx.rng.randint(1, 4))
+            x = ctx.rng.random()
+            if x < 0.55:
+                u = L.frag_bool(ctx.rng, ctx.rng.randint(1, 3), "floor", "str")
+            elif x < 0.85:
+                u = L.frag_num(ctx.rng, ctx.rng.randint(1, 4), "floor")
+            else:
+                u = L.frag_str(ctx.rng, ctx.rng.randint(1, 4), "floor", "str")
             ref = orc.db.run_sql(L.ref_sql(u))
             if isinstance(ref, str):
                 continue
             ctx.count("eval-corr-tree")
             isb = L.utype(u) == "bool"
             w = " ".join(L.wire(u))
-            for (a, b, c), v in zip(rows3, ref):
-                ecases.append({"u": u, "row": [a, b, c]})
-                ereqs.append("expr evalu %s %s %s %s" % (L.wire_val(a), L.wire_val(b), L.wire_val(c), w))
+            for (a, b, c, sa_, sb_), v in zip(rows3, ref):
+                ecases.append({"u": u, "row": [a, b, c, sa_, sb_]})
+                ereqs.append("expr evalu %s %s" % (" ".join(L.wire_val(x) for x in (a, b, c, sa_, sb_)), w))
                 if v is None:
                     eimpl.append("ok N")
                 elif isb:
                     eimpl.append("ok T" if v == 1 else "ok F")
+                elif isinstance(v, str):
+                    eimpl.append("ok " + vlib.enc_str(v))
                 else:
                     eimpl.append("ok i%d" % v if isinstance(v, int) else "ok other")
         ctx.correspond("corr/c01:eval(Lean meaning of fragment trees == real SQLite, every row)", ecases, eimpl, ctx.driver(ereqs))
